@@ -64,6 +64,9 @@ fn flip(e: End) -> End {
     }
 }
 
+/// how many items of a reversed copy are drained after every step
+const RV_MAX: usize = 4;
+
 trait DeIt: Sized {
     type Item;
     fn nx(self) -> Option<(Self::Item, Self)>;
@@ -90,14 +93,13 @@ macro_rules! impl_deit {
                 let mut it = self.copy().rev();
                 let mut v: Vec<String> = Vec::new();
                 while let Some((x, n)) = it.next() {
-                    v.push(show(x));
-                    it = n;
-                    if v.len() > 100_000 {
-                        v.push("RUNAWAY".into());
+                    if v.len() >= RV_MAX {
                         break;
                     }
+                    v.push(show(x));
+                    it = n;
                 }
-                format!("[{}]", v.join(","))
+                v.join(".")
             }
         }
     };
@@ -152,8 +154,8 @@ impl<I: DoubleEndedIterator + Clone, J: DoubleEndedIterator + Clone> DeIt for St
         self.clone()
     }
     fn rvd(&self, show: &dyn Fn(I::Item) -> String) -> String {
-        let v: Vec<String> = self.main.clone().rev().map(|x| show(x)).collect();
-        format!("[{}]", v.join(","))
+        let v: Vec<String> = self.main.clone().rev().take(RV_MAX).map(|x| show(x)).collect();
+        v.join(".")
     }
 }
 fn no_shadow() -> std::iter::Empty<()> {
@@ -173,6 +175,8 @@ struct StepOut<I> {
     alt: String,
     item: String,
     rem: String,
+    /// the state after the call, as `copy().rev()`, first RV_MAX items from its front
+    rv: String,
     next: I,
     done: bool,
 }
@@ -186,8 +190,8 @@ fn one<I: DeIt>(it: I, e: End, show: &dyn Fn(I::Item) -> String, rem: &dyn Fn(&I
     };
     let keep = it.cp();
     match step(it, e) {
-        Some((x, n)) => StepOut { alt, item: format!("S({})", show(x)), rem: rem(&n), next: n, done: false },
-        None => StepOut { alt, item: "N".to_string(), rem: rem(&keep), next: keep, done: true },
+        Some((x, n)) => StepOut { alt, item: format!("S({})", show(x)), rem: rem(&n), rv: n.rvd(show), next: n, done: false },
+        None => StepOut { alt, item: "N".to_string(), rem: rem(&keep), rv: keep.rvd(show), next: keep, done: true },
     }
 }
 
@@ -196,23 +200,27 @@ struct Acc {
     items: Vec<String>,
     alt: Vec<String>,
     rem: Vec<String>,
+    rv: Vec<String>,
 }
 impl Acc {
-    fn push(&mut self, item: String, alt: String, rem: String) {
+    fn push(&mut self, item: String, alt: String, rem: String, rv: String) {
         self.items.push(item);
         self.alt.push(alt);
         self.rem.push(rem);
+        self.rv.push(rv);
     }
     fn pop(&mut self) {
         self.items.pop();
         self.alt.pop();
         self.rem.pop();
+        self.rv.pop();
     }
     fn render(&self, with_rem: bool) -> String {
         let mut s = format!("items=[{}];alt=[{}]", self.items.join(","), self.alt.join(","));
         if with_rem {
             s.push_str(&format!(";rem=[{}]", self.rem.join(",")));
         }
+        s.push_str(&format!(";rv=[{}]", self.rv.join(",")));
         s
     }
 }
@@ -230,7 +238,7 @@ struct Case<'c, I: DeIt, S> {
     script: Option<&'c [End]>,
 }
 
-fn emit<I: DeIt, S>(c: &Case<I, S>, out: &mut Out, hist: &[End], imp: &str, st: &Acc, st_rv: &str) {
+fn emit<I: DeIt, S>(c: &Case<I, S>, out: &mut Out, hist: &[End], imp: &str, st: &Acc) {
     let h: String = hist.iter().map(|e| if *e == F { 'F' } else { 'B' }).collect();
     let args = format!("{} {} {} {}", c.elem, c.len, c.size, h);
     let yielded = st.items.iter().filter(|s| s.starts_with('S')).count();
@@ -247,7 +255,7 @@ fn emit<I: DeIt, S>(c: &Case<I, S>, out: &mut Out, hist: &[End], imp: &str, st: 
         };
         format!("{}{}", dir, if c.size != 0 && c.len % c.size != 0 { "+uneven" } else { "" })
     };
-    out.line(c.fam, &args, imp, &format!("{};rv={}", st.render(c.with_rem), st_rv), &tag);
+    out.line(c.fam, &args, imp, &st.render(c.with_rem), &tag);
 }
 
 fn walk<I: DeIt, S: DeIt<Item = I::Item>>(
@@ -278,15 +286,13 @@ fn walk<I: DeIt, S: DeIt<Item = I::Item>>(
         let so = one(st.cp(), e, c.show, c.srem);
         let ri = catch_unwind(AssertUnwindSafe(|| one(it.cp(), e, c.show, c.irem)));
         hist.push(e);
-        as_.push(so.item, so.alt, so.rem);
+        as_.push(so.item, so.alt, so.rem, so.rv);
         match ri {
-            Err(_) => emit(c, out, hist, "PANIC", as_, &so.next.rvd(c.show)),
+            Err(_) => emit(c, out, hist, "PANIC", as_),
             Ok(io) => {
-                ai.push(io.item, io.alt, io.rem);
+                ai.push(io.item, io.alt, io.rem, io.rv);
                 if io.done || so.done || hist.len() >= max_depth {
-                    // the state after the history, reversed (copy().rev()) and drained: rev() at ANY point
-                    let irv = catch_unwind(AssertUnwindSafe(|| io.next.rvd(c.show))).unwrap_or_else(|_| "PANIC".into());
-                    emit(c, out, hist, &format!("{};rv={}", ai.render(c.with_rem), irv), as_, &so.next.rvd(c.show));
+                    emit(c, out, hist, &ai.render(c.with_rem), as_);
                 } else {
                     walk(c, out, io.next, so.next, hist, ai, as_);
                 }
